@@ -11,7 +11,10 @@ use std::sync::atomic::{AtomicBool, Ordering};
 use std::sync::Mutex;
 use std::time::Instant;
 
-pub const VERIF_ROOT: &str = "/verif";
+/// root for evidence/, out/, regress/, known_findings.json (override with VERIF_ROOT for scratch runs)
+pub fn verif_root() -> String {
+    std::env::var("VERIF_ROOT").unwrap_or_else(|_| "/verif".to_string())
+}
 
 #[derive(Clone, Copy, PartialEq, Eq, Debug)]
 pub enum Tier {
@@ -250,7 +253,7 @@ pub struct KnownFinding {
 }
 
 pub fn load_known(property: &str) -> Vec<KnownFinding> {
-    let p = format!("{}/known_findings.json", VERIF_ROOT);
+    let p = format!("{}/known_findings.json", verif_root());
     let Ok(s) = std::fs::read_to_string(&p) else { return vec![] };
     let Ok(v) = serde_json::from_str::<Value>(&s) else {
         eprintln!("known_findings.json does not parse");
@@ -369,7 +372,7 @@ impl Check {
     }
 
     fn write_replay(&self, f: &Failure) -> String {
-        let dir = format!("{}/out/{}", VERIF_ROOT, self.property);
+        let dir = format!("{}/out/{}", verif_root(), self.property);
         let _ = std::fs::create_dir_all(&dir);
         let h = fnv(&[f.sub.as_bytes(), &f.tape]);
         let path = format!("{}/{}-{:016x}.json", dir, f.sub, h);
@@ -452,7 +455,7 @@ impl Check {
             }
         }
         // ---- replay tier 2: committed regression inputs
-        let rdir = format!("{}/regress/{}", VERIF_ROOT, self.property);
+        let rdir = format!("{}/regress/{}", verif_root(), self.property);
         let mut regress_n = 0;
         if let Ok(rd) = std::fs::read_dir(&rdir) {
             let mut files: Vec<_> = rd.filter_map(|e| e.ok()).map(|e| e.path()).filter(|p| p.extension().map(|x| x == "json").unwrap_or(false)).collect();
@@ -544,7 +547,7 @@ impl Check {
             "wall_s": t0.elapsed().as_secs_f64(),
             "violations": violations.len(),
         });
-        let edir = format!("{}/evidence", VERIF_ROOT);
+        let edir = format!("{}/evidence", verif_root());
         let _ = std::fs::create_dir_all(&edir);
         if args.only.is_none() {
             if let Err(e) = std::fs::write(format!("{}/{}.json", edir, self.property), serde_json::to_string_pretty(&ev).unwrap()) {
